@@ -187,6 +187,8 @@ Expected(s, e) ==
     IN CASE n.kind = "src"   -> [w |-> ScriptVal(i, e.t) # NoVal, v |-> ScriptVal(i, e.t), s |-> s.nst[i]]
          [] n.kind = "timer" -> [w |-> TRUE, v |-> s.nst[i], s |-> s.nst[i] + 1]
          [] n.kind = "echo"  -> [w |-> i \in s.due /\ s.fbq[i] # <<>>, v |-> IF s.fbq[i] # <<>> THEN s.fbq[i][1][2] ELSE 0, s |-> s.nst[i]]
+         [] n.kind = "techo" -> [w |-> i \in s.due /\ s.fbq[i] # <<>> /\ s.fbq[i][1][2] >= 0,
+                                 v |-> IF s.fbq[i] # <<>> THEN s.fbq[i][1][2] ELSE 0, s |-> s.nst[i]]
          [] n.kind = "delay" -> [w |-> i \in s.due, v |-> s.nst[i],
                                  s |-> IF s.lw[n.ins[1]] = e.t THEN iv[1] ELSE s.nst[i]]
          [] n.kind = "tdelay" -> [w |-> i \in s.due /\ s.nst[i] >= 0, v |-> s.nst[i],
@@ -228,13 +230,13 @@ OnFn(e) ==
                 threw == "throw" \in DOMAIN e
             IN IF (e.w = 1) # x.w \/ (x.w /\ e.out # x.v)
                THEN Fail("C03.output_is_not_the_function_of_the_inputs")
-               ELSE LET s0 == IF n.kind = "echo"
-                                 THEN LET q1 == IF x.w THEN Tail(S.fbq[i]) ELSE S.fbq[i]
+               ELSE LET s0 == IF n.kind \in {"echo", "techo"}
+                                 THEN LET q1 == IF i \in S.due /\ S.fbq[i] # <<>> THEN Tail(S.fbq[i]) ELSE S.fbq[i]
                                           q2 == IF S.lw[n.ins[1]] = t THEN Append(q1, <<t + n.k, S.lv[n.ins[1]]>>) ELSE q1
                                       IN [S EXCEPT !.fbq[i] = q2]
                                  ELSE S
                         s1 == [s0 EXCEPT !.fired = @ \cup {i}, !.nst[i] = x.s,
-                                        !.threw = IF threw THEN @ \cup {<<i, IF n.kind = "tdelay" THEN S.nst[i] ELSE e.in[1].v>>} ELSE @,
+                                        !.threw = IF threw THEN @ \cup {<<i, IF n.kind = "tdelay" THEN S.nst[i] ELSE IF n.kind = "techo" THEN S.fbq[i][1][2] ELSE e.in[1].v>>} ELSE @,
                                         !.tagt[i] = IF n.kind \in {"delay", "tdelay"} /\ i \in S.due /\ @ = t THEN 0 ELSE @]
                         s2 == IF x.w THEN [s1 EXCEPT !.lw[i] = t, !.lv[i] = x.v,
                                                      !.pend = @ \cup {<<f, t + 1>> : f \in FbReaders(i)},
